@@ -8,7 +8,7 @@ P = {}
 def claim(pid, technique, text, note, ref):
     P[pid] = dict(technique=technique, text=text, note=note, ref=ref)
 
-TB = ("Trusted base: go/types, go/cfg, go/packages (x/tools v0.29.0), the Go toolchain loading /repo; dependencies outside /repo behave as documented. "
+TB = ("Trusted base: go/types, go/cfg, go/packages (x/tools v0.29.0), the Go toolchain loading /repo; dependencies outside /repo behave as documented. Besides the rules named here the check evaluates the effect tables of the functions involved (required calls with constant arguments on their licensing edges, DESIGN.md §9.8). "
       "Decides the named structural necessary conditions only, not the run-time behaviour (see DESIGN.md 'Not decided').")
 
 claim("C13", "call-site enumeration with constant evaluation (no partial frames), structural formula extraction, dominance on go/cfg, held-lock analysis",
